@@ -115,12 +115,12 @@ def run(tier, seed):
         "samples": [kast.render(asts[0]), kast.render(asts[1])],
         "evaluations": len(jobs), "distinct_nontrivial": sum(1 for p in progs if preds[p["id"]]["status"] == "err"),
         "rule": "programs with one fault (throw, bad index, type mismatch, failed assertion, null index) planted under "
-                "0..4 nested calls (plain calls, calls inside functions run by fold / each / keep, generators consumed by for or next), preceded by line-shifting multi-line constructs, rendered in several layouts and "
+                "0..4 nested calls (plain calls, calls inside functions run by fold / each / keep, inside overloaded operators, generators consumed by for or next), preceded by line-shifting multi-line constructs, rendered in several layouts and "
                 "contexts; the machine's failing node and call-site nodes are mapped to lines through unique markers",
         "trace_depth_histogram": depth_hist, "exhaustive": False,
     }
     rep.assumptions = ["call chains through script functions, through functions run by fold / each / keep / to_tuple / count, and through "
-                       "generators consumed by for or next are predicted; overloaded operators and other core-library callbacks are not", "compile-error positions are checked by C10's block-prefix check"]
+                       "generators consumed by for or next, and through overloaded arithmetic operators are predicted; other core-library callbacks are not", "compile-error positions are checked by C10's block-prefix check"]
     return rep.finish()
 
 
